@@ -201,7 +201,11 @@ def unit_compare(unit):
                         py = f"from serif import Vector\nfrom datetime import date\nimport operator\nprint(list(operator.{opn if opn not in LOGIC else opn + '_'}(Vector({xs!r}), {'Vector(' if form != 'vl' else ''}{ys!r}{')' if form != 'vl' else ''})))  # expected {want!r}"
                         try:
                             v = Vector(xs)
-                            res = op(v, Vector(ys)) if form == "vv" else (op(v, list(ys)) if form == "vl" else op(v, v))
+                            w_ = Vector(ys)
+                            if (len(xs) + len(ys) + sum(ma)) % 2:        # every other case: both operands have a memoized fingerprint
+                                v.fingerprint(); w_.fingerprint()
+                                case["fingerprints_cached_before"] = True
+                            res = op(v, w_) if form == "vv" else (op(v, list(ys)) if form == "vl" else op(v, v))
                         except Exception as e:
                             if all(ma) and kind == "date":
                                 agg.skipped["all-None-date-vector"] += 1
@@ -339,7 +343,7 @@ FILL = {
 
 
 NA_BASE = dict({k: v[0] for k, v in BASE.items()}, object=[1, "a", 2.5, b"x"])
-FILL["object"] = [("same", "fill"), ("none", None)]
+FILL["object"] = [("same", "fill"), ("same", (0, 0)), ("same", [7]), ("same", (8,)), ("none", None)]      # a tuple / list is ONE fill value
 
 
 def unit_na(unit):
@@ -556,6 +560,9 @@ def unit_groups(unit):
             agg.nontrivial += 1
         for menu in ("all6", "sum", "count"):
             c12.check_aggregate(agg, h, kind, 1, "name", keys, vals, menu)
+        from props import c13
+        for menu in ("all6", "mean", "two-cols"):
+            c13.check_window(agg, h, kind, 1, "name", keys, vals, menu)       # the per-row form of the per-group aggregates
     agg.outcomes["group-agree"] = agg.outcomes.pop("agree", 0)
     return agg
 
